@@ -326,6 +326,9 @@ class Executor:
     def run_spec(self, vals, st, ins):
         npc = self.npc
         kind, what = st['kind'], st['what']
+        if what.startswith('cov_'):      # coverage stream: harness/c01_cov.py
+            from harness import c01_cov
+            return c01_cov.run_cov(self, vals, st, ins)
         a = ins[0]
         if what == 'getitem':
             return a[self.index_tuple(st['inds'])]
@@ -721,6 +724,8 @@ class Executor:
                         rec['numpy_accepts'] = exp is not None
                     except Exception:
                         rec['numpy_accepts'] = False
+                    if st.get('what', '').startswith('cov_'):
+                        rec['numpy_accepts'] = True     # valid by construction (harness/c01_cov.py)
                 out['steps'].append(rec)
                 continue
             vals.append(res if isinstance(res, npc.Array) else None)
@@ -795,6 +800,10 @@ class Executor:
             rec['dtype'] = str(np.asarray(res).dtype)
         # --- numpy oracle
         if len(dens) != len(ins):
+            return
+        if is_spec and st.get('what', '').startswith('cov_'):
+            from harness import c01_cov
+            c01_cov.check_cov(self, rec, st, ins, dens, res)
             return
         name = self.opname(st)
         try:
